@@ -54,6 +54,7 @@ func genCase(t *rapid.T) copyx.Case {
 		}
 		c.Pre = copyx.GenPre(t, d, universe, c.Root)
 	}
+	addPreTag(t, &c, d)
 	switch rapid.IntRange(0, 4).Draw(t, "filterMode") {
 	case 0, 1:
 	case 2:
@@ -122,6 +123,30 @@ func fanSpecs(t *rapid.T, sha256Only bool) []gen.NodeSpec {
 		manifests = append(manifests, len(specs)-1)
 	}
 	return specs
+}
+
+// addPreTag makes, for some ExtendedCopy cases, the destination look as after an
+// earlier Copy of the start node: its own graph is there and the destination
+// reference already names it (its ancestors may be new).
+func addPreTag(t *rapid.T, c *copyx.Case, d *gen.DAG) {
+	for id := range d.Reach(c.Root, true) {
+		if d.Nodes[id].Spec.Absent {
+			return
+		}
+	}
+	if c.API != "extcopy" || rapid.IntRange(0, 2).Draw(t, "preTag") != 0 {
+		return
+	}
+	c.PreTag = true
+	have := map[int]bool{}
+	for _, id := range c.Pre {
+		have[id] = true
+	}
+	for _, id := range gen.SortedKeys(d.Reach(c.Root, true)) {
+		if !have[id] {
+			c.Pre = append(c.Pre, id)
+		}
+	}
 }
 
 // genRemote: the source is a remote.Repository (Referrers API, possibly paginated,
@@ -202,6 +227,9 @@ func genRemote(t *rapid.T) copyx.Case {
 				c.Depth = 0
 			}
 		}
+	}
+	if !c.HasStale {
+		addPreTag(t, &c, d)
 	}
 	return c
 }
@@ -326,7 +354,7 @@ func unionReach(d *gen.DAG, roots map[int]int, maxDist int) map[int]bool {
 func genFan(t *rapid.T) copyx.Case {
 	c := genCase(t)
 	c.Specs = fanSpecs(t, false)
-	c.Pre = nil // drawn for the graph that was just replaced
+	c.Pre, c.PreTag = nil, false // drawn for the graph that was just replaced
 	c.Root = 2
 	if rapid.IntRange(0, 2).Draw(t, "fanStartElsewhere") == 0 {
 		c.Root = rapid.IntRange(0, len(c.Specs)-1).Draw(t, "fanStart")
@@ -339,6 +367,7 @@ func genFan(t *rapid.T) copyx.Case {
 		}
 		c.Pre = copyx.GenPre(t, d, universe, c.Root)
 	}
+	addPreTag(t, &c, gen.Build(c.Specs))
 	return c
 }
 
